@@ -6,7 +6,7 @@ From TS Require Import Model.Lang.Swift Model.Lang.Python.
 From TS Require Proofs.C09Common Proofs.C09Recon Proofs.C09Refs Proofs.C09_KotlinFile Proofs.C09Witness Proofs.C09Final.
 From TS Require Proofs.C09_TypeScript Proofs.C09_Scala Proofs.C09_Python Proofs.C09_Swift Proofs.C09_Go Proofs.GoAcronyms Proofs.C09_GoAcr.
 From TS Require Import Model.Lang.Common Model.Collect Model.MultiFile Spec.C09MultiSpec.
-From TS Require Proofs.C14Front Proofs.C14Witness Proofs.C09Multi Proofs.C09MultiWitness Proofs.C09MultiTS.
+From TS Require Spec.C14Spec Proofs.C14Main Proofs.C14Front Proofs.C14Witness Proofs.C09Multi Proofs.C09MultiWitness Proofs.C09MultiTS Proofs.C09MultiC14.
 Import ListNotations.
 
 (* the program the back ends receive in single-file mode is Proofs.C09Recon.c09_reconciled of the parsed one *)
@@ -608,3 +608,43 @@ Theorem C09_multi_TypeScript_item :
       (forall r, In r (c09_decl_refs TypeScript (ts_obs d)) -> c9m_ref_ok arrivals b [] r).
 Proof. exact Proofs.C09MultiTS.c9m_ts_item. Qed.
 Print Assumptions C09_multi_TypeScript_item.
+
+(* the name C14's specification expects a type N of crate d to be imported under (renamed_in, Spec/C14Spec.v, on the syntax-level
+   view of the workspace) is the name d's generated file defines it under (c9m_emitted_name, on the arrivals), whenever d
+   generates its types of the Rust name N under one name *)
+Theorem C09_multi_emitted_name_is_import_name :
+  forall (uc : unicode) (T ign : list str) (ho_file : list imported -> list imported) (ws : list ws_entry) (arrivals : list (str * parsed)),
+    parse_workspace uc T ign ho_file ws = Ok arrivals ->
+    forall d n, c9m_two_names arrivals d n = false ->
+      Spec.C14Spec.renamed_in (Proofs.C14Main.c14_infos uc T ws) d n = c9m_emitted_name arrivals d n.
+Proof. exact Proofs.C09MultiC14.c9m_renamed_in_emitted. Qed.
+Print Assumptions C09_multi_emitted_name_is_import_name.
+
+(* C09 composed with C14_imports_complete, TypeScript, the whole folder-mode pipeline (every workspace, --target-os list,
+   type-mapping configuration, all iteration orders of the three hash containers, every state of the TypeScript value):
+   the file generated for crate c (a) spells every reference as C09_multi_TypeScript says - own types and imported ones under
+   the name the defining file declares - and (b) for every cross-crate reference v that C14's specification finds in a source
+   file of c and that lies in dom_C14 (named by `use` / path, or covered by a glob), the import lines - which are part of
+   this very text - import it from its crate (rv_from v) under rv_generated_name v, and that name is c9m_emitted_name of the
+   target: spelled as in the defining file AND imported from it. *)
+Theorem C09_multi_TypeScript_spelled_and_imported :
+  forall (uc : unicode), unicode_ok uc ->
+  forall (cfg : ts_config) (T ign : list str) (ho_file ho_crate : list imported -> list imported) (hc : crate_types -> crate_types)
+         (ws : list ws_entry) (arrivals : list (str * parsed)),
+    parse_workspace uc T ign ho_file ws = Ok arrivals ->
+    Proofs.C14Front.oracle_ok ho_file -> Proofs.C14Front.oracle_ok ho_crate -> Proofs.C14Front.oracle_ok hc ->
+    c9m_ids_wf arrivals = true ->
+    forall c pd, In (c, pd) (multi_crates ho_crate arrivals) ->
+    let imports := crate_imports hc (multi_crates ho_crate arrivals) c pd in
+    forall st text st', ts_generate_multi uc cfg st imports pd = Ok (text, st') ->
+      (exists ds : list ts_decl,
+         text = (ts_begin_file cfg ++ ts_write_imports imports ++ List.concat (map ts_render_decl ds) ++ ts_end_file st')%list /\
+         Forall (fun d => (c09_is_def (ts_obs d) = true -> c9m_def_ok arrivals c [] (d_name (ts_obs d))) /\
+                          (forall r, In r (c09_decl_refs TypeScript (ts_obs d)) -> c9m_ref_ok arrivals c [] r)) ds) /\
+      (forall v, In v (Spec.C14Spec.judge_crate (Proofs.C14Main.c14_infos uc T ws) ign c (scoped_pairs imports)) ->
+         Spec.C14Spec.rv_dom v = true ->
+         Spec.C14Spec.rv_imported v = true /\
+         (c9m_two_names arrivals (Spec.C14Spec.rv_from v) (Spec.C14Spec.rv_name v) = false ->
+          Spec.C14Spec.rv_generated_name v = c9m_emitted_name arrivals (Spec.C14Spec.rv_from v) (Spec.C14Spec.rv_name v))).
+Proof. exact Proofs.C09MultiC14.c9m_ts_spelled_and_imported. Qed.
+Print Assumptions C09_multi_TypeScript_spelled_and_imported.
